@@ -67,12 +67,16 @@ def eval_case(ctx, case):
             if op[0] == "info" and op[1].get("root") is None and depth > 0:
                 pass  # info -sf a.txt searches upwards from the file: the root history is loaded (children included)
             ctx.fresh("dest")
-            res, post, obs = ops.run_cmd(ctx, t, op, sub.NOW0 + 900, observe=True, subst={"dest": os.path.join(ctx.base, "dest")})
+            # the tampered file may carry any mtime: older than the chain file (a time-preserving copy, a backdated edit),
+            # the same, or newer - detection must not depend on it
+            mts = {f["path"]: sub.T0 + {"older": -5000, "newer": 5000}[f["mt"]]} if f.get("mt") in ("older", "newer") else None
+            res, post, obs = ops.run_cmd(ctx, t, op, sub.NOW0 + 900, observe=True, subst={"dest": os.path.join(ctx.base, "dest")},
+                                         mtimes=mts)
             n += 1
-            sig = {"fault": f["kind"], "cmd": op[0] + ("-sf" if op[1].get("sf") else "") + ("-dh" if op[1].get("dh") else ""),
+            sig = {"fault": f["kind"], "mtime": f.get("mt", "same"), "cmd": op[0] + ("-sf" if op[1].get("sf") else "") + ("-dh" if op[1].get("dh") else ""),
                    "level": depth, "file": "chain" if f["path"].endswith(".xml") else "manifest"}
             one = dict(case, faults=[f], ops=[op])
-            desc = f"{case['name']}: {f['kind']} @{f.get('pos', '-')} of {f['path']} -> {ops.label(op)}"
+            desc = f"{case['name']}: {f['kind']} @{f.get('pos', '-')} of {f['path']} (mtime {f.get('mt', 'same')}) -> {ops.label(op)}"
             if res.exit != want:
                 v.append(Viol(PROP, "wrong-exit", dict(sig, exit=res.exit if res.exit in (0, 1, 10, 11, 12, 21, 30, 31, 32, 33) else "other",
                                                        exc=(res.exc or "").split(":")[0] or None),
@@ -119,6 +123,9 @@ def main(tier, seed):
                 for pos in positions(n, tier, kind):
                     faults.append({"path": p, "kind": kind, "pos": pos, "bit": (pos % 8) if kind == "flip" else 0})
             faults.append({"path": p, "kind": "append-newline"})
+            faults += [dict(x, mt=m) for x in list(faults) if x["path"] == p and "mt" not in x
+                       for m in (("older",) if tier == "quick" else ("older", "newer"))
+                       if tier == "quick" or x["kind"] != "flip" or x["pos"] % 8 == 0]
             faults.append({"path": p, "kind": "remove"})
         for p in chains:
             faults.append({"path": p, "kind": "remove"})
@@ -137,6 +144,7 @@ def main(tier, seed):
            "rule": "histories {flat 2 generations, nested 2 levels (2 generations in the parent), nested 3 levels}; for EVERY manifest "
                    "listed in any chain: bit flip / byte insertion / byte deletion / truncation at positions {0, 1, last, 16 evenly "
                    "spaced} (thorough: a bit flip at every byte position, the others at 64 positions), appended newline, removal; "
+                   "every content fault with the tampered file's mtime equal to and older than the chain file's (thorough: also newer); "
                    "removal of every chain file; each fault x 12 history-reading commands (create, create -sf, create -dr, verify, "
                    "verify -sf, verify -dh, diff, info, info -sf with/without root, flatten); oracle: exit code exactly 31 / 33 / 32 "
                    "and an identical (type, bytes, size, mtime, mode) snapshot of root, destination, cwd; distinct = distinct faults"}
